@@ -96,8 +96,33 @@ func TestCheck(t *testing.T) {
 	n := int64(cfg.Pick(48, 80))
 	// the last cases of every shard belong to the typed sub-workload (typed_test.go)
 	rep.Require("typed_histories_equal_to_uninterrupted_run", 50)
-	rep.Cases(n+typedCasesPerShard(cfg), func(idx int64, rng *mon.Rand) {
-		if idx >= n {
+	rep.Require("spans_histories_equal_to_uninterrupted_run", 50)
+	rep.Require("spans_histories_interrupted_in_nested_graph", 10)
+	rep.Require("parked_failing_data_only_edges", 10)
+	rep.Require("typed_nontrivial_parked", 20)
+	rep.Require("parked_control_histories_failed_after_resume", 5)
+	nt, ns, np := typedCasesPerShard(cfg), spansCasesPerShard(cfg), parkedCasesPerShard(cfg)
+	rep.Cases(n+nt+ns+np, func(idx int64, rng *mon.Rand) {
+		which := "gspec"
+		switch {
+		case idx >= n+nt+ns:
+			which = "parked"
+		case idx >= n+nt:
+			which = "spans"
+		case idx >= n:
+			which = "typed"
+		}
+		if only := os.Getenv("VERIF_TYPED_ONLY"); only != "" && only != "1" && only != which {
+			return // debugging aid: typed | spans | parked
+		}
+		switch which {
+		case "parked":
+			parkedCase(ctx, rep, rng, cfg, idx-n-nt-ns)
+			return
+		case "spans":
+			spansCase(ctx, rep, rng, cfg, idx-n-nt)
+			return
+		case "typed":
 			typedCase(ctx, rep, rng, cfg, idx-n)
 			return
 		}
